@@ -1,0 +1,11 @@
+//go:build verif
+
+package wsjson
+
+import "nhooyr.io/websocket/internal/bpool"
+
+// VerifSetPoolHook installs a callback invoked on every Get and Put of the
+// buffer pool used by Read. It only exists when built with the verif build tag.
+func VerifSetPoolHook(f func(op string, obj interface{})) {
+	bpool.VerifSetHook(f)
+}
